@@ -369,9 +369,15 @@ fn real_verify(ctx: &Ctx, cert: &MithrilCertificate, snap: &CardanoDatabaseSnaps
     let r = ctx.rt.block_on(dbc.verify_cardano_database(cert, snap, &range.real(), allow, db_dir, vd));
     match r {
         Ok(proof) => {
-            // the returned proof must be one the certificate can be matched with (root test of the caller)
-            let _ = proof;
-            Verdict::Accepted
+            // the returned proof must verify, and be one the certificate can be matched with (the root
+            // test every caller performs: MessageBuilder::compute_cardano_database_message + match_message)
+            let msg = ctx.rt.block_on(mithril_client::MessageBuilder::new().compute_cardano_database_message(cert, &proof));
+            let matches = msg.map(|m| cert.match_message(&m)).unwrap_or(false);
+            if proof.verify().is_err() || !matches {
+                Verdict::Err("unmatched-proof")
+            } else {
+                Verdict::Accepted
+            }
         }
         Err(CardanoDatabaseVerificationError::ImmutableFilesVerification(l)) => Verdict::Rejected {
             missing: l.missing.clone(),
@@ -836,39 +842,39 @@ fn main() {
 
     // ---- corpus: witnesses of the repaired defects and of the recorded findings, replayed first ----
     // (a) contents of two certified names exchanged; (b) one certified content copied over another
-    let w = direct_case(&ctx, &mut sink, &mut rng, "corpus.swap", 3, 2, false, R::From(1), false,
+    let w = direct_case(&ctx, &mut sink, &mut rng.fork(), "corpus.swap", 3, 2, false, R::From(1), false,
         Some(vec![Tamper::Swap("00001.chunk".into(), "00002.chunk".into())]), 0);
     if let Some((v, _)) = w {
         let rep = matches!(v, Verdict::Accepted);
         sink.witness("C10-content-swap", rep, &format!("contents of 00001.chunk and 00002.chunk exchanged, From(1): {}", v.show()));
     }
-    let w = direct_case(&ctx, &mut sink, &mut rng, "corpus.copy", 3, 2, false, R::Full, false,
+    let w = direct_case(&ctx, &mut sink, &mut rng.fork(), "corpus.copy", 3, 2, false, R::Full, false,
         Some(vec![Tamper::CopyOver("00000.primary".into(), "00002.primary".into())]), 0);
     if let Some((v, _)) = w {
         let rep = matches!(v, Verdict::Accepted);
         sink.witness("C10-content-copy", rep, &format!("content of 00000.primary written over 00002.primary, Full: {}", v.show()));
     }
-    let w = direct_case(&ctx, &mut sink, &mut rng, "corpus.padding", 3, 2, false, R::Full, false,
+    let w = direct_case(&ctx, &mut sink, &mut rng.fork(), "corpus.padding", 3, 2, false, R::Full, false,
         Some(vec![Tamper::Extra("1.chunk".into(), Some("00002.chunk".into()))]), 0);
     if let Some((v, _)) = w {
         let rep = matches!(v, Verdict::Accepted);
         sink.witness("C10-foreign-name", rep, &format!("extra file 1.chunk holding the content of 00002.chunk, Full: {}", v.show()));
     }
     // a symbolic link under a certified name is skipped by the digester and counts as present
-    let w = direct_case(&ctx, &mut sink, &mut rng, "corpus.symlink", 3, 2, false, R::Full, false,
+    let w = direct_case(&ctx, &mut sink, &mut rng.fork(), "corpus.symlink", 3, 2, false, R::Full, false,
         Some(vec![Tamper::LinkAt("00001.chunk".into(), "../evil.bin".into())]), 0);
     if let Some((v, f)) = w {
         let rep = matches!(v, Verdict::Accepted) && f.iter().any(|(c, _)| c == "non-regular-entry-skipped");
         sink.witness("C10-symlink-skipped", rep, &format!("immutable/00001.chunk replaced by a symbolic link to ../evil.bin, Full, allow_missing=false: {}", v.show()));
     }
-    let w = direct_case(&ctx, &mut sink, &mut rng, "corpus.dir", 3, 2, false, R::Full, false,
+    let w = direct_case(&ctx, &mut sink, &mut rng.fork(), "corpus.dir", 3, 2, false, R::Full, false,
         Some(vec![Tamper::DirAt("00001.primary".into())]), 0);
     if let Some((v, f)) = w {
         let rep = matches!(v, Verdict::Accepted) && f.iter().any(|(c, _)| c == "non-regular-entry-skipped");
         sink.witness("C10-directory-skipped", rep, &format!("immutable/00001.primary replaced by a directory, Full, allow_missing=false: {}", v.show()));
     }
     // the signed root binds the ordered digests, not the names: insert a name, drop the last one
-    let w = pipeline_case(&ctx, &mut sink, &mut rng, "corpus.shift", 4, 3,
+    let w = pipeline_case(&ctx, &mut sink, &mut rng.fork(), "corpus.shift", 4, 3,
         vec![ListTamper::Shift { fake: "00001.chun".into(), from: "00001.chunk".into(), dropped: "00003.secondary".into() }],
         R::Range(1, 2), false, true, 0);
     if let Some(f) = w {
@@ -880,6 +886,7 @@ fn main() {
     let n_direct = if args.thorough() { 4000 } else { 430 };
     let n_pipe = if args.thorough() { 1500 } else { 170 };
     for k in 0..n_direct {
+        let mut rng = rng.fork(); // everything of one case derives from this: `--only` replays the same case
         let trios = match k % 10 {
             0 => 1,
             1 => 2,
@@ -897,9 +904,10 @@ fn main() {
             _ => 3,
         };
         let tag = if nt == 0 { "honest" } else { "tampered" };
-        direct_case(&ctx, &mut sink, &mut rng, tag, trios, beacon, extra, range, allow, None, nt);
+        direct_case(&ctx, &mut sink, &mut rng.fork(), tag, trios, beacon, extra, range, allow, None, nt);
     }
     for k in 0..n_pipe {
+        let mut rng = rng.fork();
         let trios = if k % 7 == 0 { 30 } else { rng.range(1, 12) };
         let beacon = if rng.chance(1, 2) { trios - 1 } else { rng.range(0, trios - 1) };
         let nl = match rng.below(6) {
@@ -923,7 +931,7 @@ fn main() {
         let allow = rng.chance(1, 3);
         let nt = if rng.chance(1, 3) { 1 } else { 0 };
         let tag = if lt.is_empty() { "pipeline.honest" } else { "pipeline.tampered" };
-        pipeline_case(&ctx, &mut sink, &mut rng, tag, trios, beacon, lt, range, allow, follow, nt);
+        pipeline_case(&ctx, &mut sink, &mut rng.fork(), tag, trios, beacon, lt, range, allow, follow, nt);
     }
     sink.note("numbers", "immutable numbers stay below 100000: client (name order) and aggregator ((number, path) order) agree there");
     let Ctx { scratch, .. } = ctx;
